@@ -199,6 +199,7 @@ class FakeTermios:
         self._tty.inq.clear()
 
 
+SimTTY.write_hook = None
 SimTTY.entry_attrs = None
 SimTTY.attr_changes = 0
 SimTTY.flushed_bytes = 0
@@ -255,6 +256,8 @@ class FakeOS:
             return real_os.write(fd, data)
         tty = self._tty
         tty.k.seam("tty.write", len(data))
+        if tty.write_hook is not None:
+            tty.write_hook(bytes(data))
         tty.writes.append(bytes(data))
         tty.output(bytes(data))
         tty.k.seam_after("tty.write")
